@@ -129,6 +129,8 @@ PROBES.insert(0, (re.compile(r"^hid::(Message::extend|ChannelHandler::handle_pac
                    "010203049000c8" + "aa" * 57 + ",0102030400" + "bb" * 200,
                    "0102030490003c" + "aa" * 100 + ",0102030400" + "bb" * 59]))
 PROBES.insert(0, (re.compile(r"^enc::RegisterResponse::encode::"), "u2f-register-response", ["40|8|8", "0|5|7", "255|3|70", "16|0|8", "1|300|72"]))
+# a message built from its public fields: above the maximum, length field and payload disagreeing
+PROBES.insert(0, (re.compile(r"^hid::Message::send::"), "hid-send-fields", ["7610|7610", "20|10", "10|20", "10|100", "100|10", "7727|7727", "70000|70000", "58|57"]))
 PROBES.insert(0, (re.compile(r"^cosek::"), "cose-der", ["32,32", "31,32", "32,33", "0,32", "32,0", "64,64"]))
 # a getInfo response whose transports list (key 0x09) declares 2^26 elements and ends there: 7 bytes of input
 PROBES.insert(0, (re.compile(r"^serdecap::(PossiblyUnknown|IgnoreUnknown)"), "cbor-get-info-response", ["a1099a04000000"]))
